@@ -31,6 +31,8 @@ Static rules (DESIGN.md §C06, engine sa/tabchain.py):
               a check that the buffer is that large)
  table-extent a file-scope constant table of fixed extent is indexed below its extent: constant loop bound, or a guard
               that rejects larger run-time bounds (clang AST; local scratch arrays sized by convention are not judged)
+ unit-vector  `v[k] /= n` with n = sqrt(v[0]^2+v[1]^2+v[2]^2) is dominated by a test on n, in functions that python reaches
+              and in which n is in no other denominator (derivative variants are singular at n = 0 by nature)
  setup-invariance  Python set-up code (pyscf/*.py, dft/lcao_*.py, grids_indexer.py): values derived from
               mol.atom_coords()/atom_coord() reach call arguments, returns, stores or branch conditions only
               through differences of positions reduced by norm / dot / sum of squares over the Cartesian axis
@@ -798,6 +800,157 @@ def rule_sph_bounds(chk, tus):
 
 
 # ----------------------------------------------------------------------------------------------
+# unit-vector: a direction normalised by its own Euclidean norm is guarded against norm == 0
+# ----------------------------------------------------------------------------------------------
+def python_entry_points(tree):
+    """names of library functions referenced from (non-test) python code: libX.name / getattr(libX, "name")"""
+    out = set()
+    for rel in tree.glob("ciderpress/**/*.py"):
+        if "/tests/" in rel:
+            continue
+        try:
+            mod = tree.py(rel)
+        except core.AnalysisError:
+            continue
+        for n in ast.walk(mod):
+            f = _lib_func(n) if isinstance(n, (ast.Attribute, ast.Call)) else None
+            if f:
+                out.add(f)
+    return out
+
+
+def _refs(node, did):
+    return any(x.get("kind") == "DeclRefExpr" and x.get("referencedDecl", {}).get("id") == did for x in cfacts.walk(node))
+
+
+def _norm_defs(tu, fname):
+    """scalars assigned sqrt(a*a + b*b [+ c*c]) -> {decl id: (name, set of operand spellings)}"""
+    out = {}
+    for n in tc.walk_stmts(tu.body(fname)):
+        tgt = val = None
+        if n.get("kind") == "BinaryOperator" and n.get("opcode") == "=":
+            l, r = cfacts.kids(n)
+            l = cfacts.strip(l)
+            if l.get("kind") == "DeclRefExpr":
+                tgt, val = l["referencedDecl"], r
+        elif n.get("kind") == "VarDecl":
+            ks = [c for c in cfacts.kids(n) if c.get("kind") != "FullComment"]
+            if ks:
+                tgt, val = {"id": n.get("id"), "name": n.get("name")}, ks[0]
+        if tgt is None:
+            continue
+        v = cfacts.strip(val)
+        if v.get("kind") != "CallExpr":
+            continue
+        callee = cfacts.strip(cfacts.kids(v)[0])
+        if callee.get("referencedDecl", {}).get("name") != "sqrt" or len(cfacts.kids(v)) != 2:
+            continue
+        terms, todo = [], [cfacts.strip(cfacts.kids(v)[1])]
+        while todo:
+            x = cfacts.strip(todo.pop())
+            if x.get("kind") == "BinaryOperator" and x.get("opcode") == "+":
+                todo.extend(cfacts.kids(x))
+            else:
+                terms.append(x)
+        ops = set()
+        good = len(terms) >= 2
+        for t_ in terms:
+            if t_.get("kind") == "BinaryOperator" and t_.get("opcode") == "*":
+                a, b = [tc.norm_c(tu.text_of(cfacts.strip(c))) for c in cfacts.kids(t_)]
+                if a == b:
+                    ops.add(a)
+                    continue
+            good = False
+        if good and len(ops) == len(terms):
+            out[tgt["id"]] = (tgt.get("name"), ops)
+    return out
+
+
+def rule_unit_vector(chk, tus, files=(C_INTERP, C_SDMX)):
+    """`v[k] /= n` (or v[k] / n) with n = sqrt(v[0]^2 + v[1]^2 + v[2]^2): when the grid point coincides with the
+    centre the division is 0/0 = NaN, although r^l Y_lm (or a radial function finite at 0) has a limit there.  The
+    division must be dominated by a test on n -- unless the function is singular at n = 0 anyway (n also occurs in
+    another denominator: derivative variants), or is not reachable from python."""
+    entry = python_entry_points(chk.tree)
+    n_sites = 0
+    for rel in files:
+        tu = tus[rel]
+        # reachability: exported functions named from python, and what they call in this file
+        reach = set()
+        for f in tu.funcs:
+            if f in entry:
+                reach.add(f)
+                reach |= {nm for nm, _, _ in tc.callees_of(tu, f, 3)}
+        for fname in sorted(tu.funcs):
+            body = tu.body(fname)
+            if body is None:
+                continue
+            norms = _norm_defs(tu, fname)
+            if not norms:
+                continue
+            parents = {}
+            nodes = list(tc.walk_stmts(body))
+            for x in nodes:
+                for c in cfacts.kids(x):
+                    parents[id(c)] = x
+            for did, (nname, ops) in norms.items():
+                sites, other_denoms = [], []
+                for x in nodes:
+                    den = num = None
+                    if x.get("kind") == "CompoundAssignOperator" and x.get("opcode") == "/=":
+                        num, den = cfacts.kids(x)
+                    elif x.get("kind") == "BinaryOperator" and x.get("opcode") == "/":
+                        num, den = cfacts.kids(x)
+                    if den is None or not _refs(den, did):
+                        continue
+                    dn = cfacts.strip(den)
+                    plain = dn.get("kind") == "DeclRefExpr"
+                    if plain and tc.norm_c(tu.text_of(cfacts.strip(num))) in ops:
+                        sites.append(x)
+                    else:
+                        other_denoms.append(x)
+                if not sites:
+                    continue
+                for x in sites:
+                    n_sites += 1
+                    txt = " ".join(tu.text_of(x).split())
+                    inst = "%s:%s %s" % (rel, fname, txt)
+                    # dominated by a test on n?
+                    guarded, cur = False, x
+                    while id(cur) in parents:
+                        par = parents[id(cur)]
+                        if par.get("kind") in ("IfStmt", "ConditionalOperator") and _refs(cfacts.kids(par)[0], did) \
+                                and cur is not cfacts.kids(par)[0]:
+                            guarded = True
+                        if par.get("kind") == "CompoundStmt":
+                            for sib in cfacts.kids(par):
+                                if sib is cur:
+                                    break
+                                if sib.get("kind") == "IfStmt" and _refs(cfacts.kids(sib)[0], did) and any(
+                                        y.get("kind") in ("ContinueStmt", "ReturnStmt", "BreakStmt")
+                                        for y in tc.walk_stmts(cfacts.kids(sib)[1])):
+                                    guarded = True
+                        cur = par
+                    if guarded:
+                        chk.ok("unit-vector", inst + " [guarded]")
+                    elif other_denoms:
+                        chk.ok("unit-vector", inst + " [function singular at %s = 0: also %s]" % (
+                            nname, " ".join(tu.text_of(other_denoms[0]).split())[:40]), nontrivial=False)
+                    elif fname not in reach:
+                        chk.ok("unit-vector", inst + " [not reachable from python]", nontrivial=False)
+                        if x is sites[0]:
+                            chk.note("unit-vector", "%s:%s" % (rel, fname), "unguarded normalisation in a function no python code reaches")
+                    else:
+                        chk.violation("unit-vector", F[rel], fname, txt, tu.line_of(x),
+                                      "%s is the Euclidean norm of this vector (sqrt of the sum of squares of %s); for a grid point "
+                                      "on the centre it is 0 and the division gives NaN, although nothing else in %s is singular "
+                                      "there (the harmonics are multiplied by r^l / radial functions finite at 0).  Test %s before "
+                                      "dividing and use any unit vector when it is 0" % (nname, ", ".join(sorted(ops)), fname, nname),
+                                      instance=inst)
+    chk.count("vector normalisations", n_sites)
+
+
+# ----------------------------------------------------------------------------------------------
 # xyz-slots
 # ----------------------------------------------------------------------------------------------
 def _lib_func(v):
@@ -1373,6 +1526,9 @@ def _analyse_own(chk):
     chk.rule("table-extent", "a file-scope constant table of fixed extent is indexed below its extent (constant loop bound "
                              "or a rejecting guard on the run-time bound)")
     chk.floor("sph-bounds", 3, "2 generators x 3 configurations")
+    chk.rule("unit-vector", "a vector divided by its own Euclidean norm is guarded against norm == 0 in functions that are "
+                            "regular there and reachable from python")
+    chk.floor("unit-vector", 6, "4 functions x 3 components today (12)")
     chk.rule("xyz-slots", "feature slots ix+c are paired with Cartesian component c in the add_lp1_* / fill_l1_coeff_* functions")
     chk.rule("setup-invariance", "python set-up values derived from mol.atom_coords() reach scalars only through "
                                  "rotation/translation-invariant reductions of position differences")
@@ -1388,6 +1544,7 @@ def _analyse_own(chk):
     chk.guard(rule_sph_harmonic, tus)
     chk.guard(rule_sph_bounds, tus)
     chk.guard(rule_table_extent, tus)
+    chk.guard(rule_unit_vector, tus)
     chk.guard(rule_xyz_slots, tus)
     chk.guard(rule_translation, tus)
     chk.guard(rule_setup_invariance)
@@ -1500,6 +1657,7 @@ def mutants(tree):
         Mutant("generator stores the l=1 entries without checking lmax", F[C_SPH],
                "    if (buf.lmax < 1) {\n        return; // nlm == 1: there is no room for the l=1 entries\n    }\n    ylm[1 * lp1 + 0]",
                "    ylm[1 * lp1 + 0]", expect="sph-bounds"),
+        Mutant("compute_spline_bas_separate normalises without a guard", F[C_INTERP], fn=_unguard_spline, expect="unit-vector"),
         Mutant("SDMXylm_loop: atom y taken from z", F[C_SDMX], "gridy[g] - atom_coords[3 * ia + 1];", "gridy[g] - atom_coords[3 * ia + 2];",
                expect="translation"),
     ]
@@ -1532,6 +1690,21 @@ def _dedup_temp(text):
            "            full_ylm_loc = np.append(full_ylm_loc, ylm_loc_tab[symb] + ystart)\n")
     return text.replace(_YLM_OLD, new, 1).replace("        full_ylm = np.empty((0, nlm), dtype=np.float64)\n",
                                                   "        full_ylm = np.empty((0, nlm), dtype=np.float64)\n        ylm_done = set()\n", 1)
+
+
+def _unguard_spline(text):
+    k = text.find("void compute_spline_bas_separate(")
+    if k < 0:
+        return None
+    a = "            if (dr > 0) {\n"
+    i = text.find(a, k)
+    if i < 0:
+        return None
+    j = text.find("            }\n", text.find("} else {", i))
+    if j < 0:
+        return None
+    new = "            diffr[0] /= dr;\n            diffr[1] /= dr;\n            diffr[2] /= dr;\n"
+    return text[:i] + new + text[j + len("            }\n"):]
 
 
 def _fac_table(text):
